@@ -367,3 +367,11 @@ def _real_one_step(a: dict):
 
 REGISTRY["C03.one_step_preserves_context"].real_replay = _real_one_step
 REGISTRY["C03.two_step_histories"].real_replay = _real_one_step
+
+
+# ------------------------------------------------------------------ bookkeeping and metadata queries fill in the session context (mechanism 4 of the property; shared with C09)
+import obligations.C09  # noqa: E402,F401
+from vf.registry import alias  # noqa: E402
+
+alias("C03.metadata_bookkeeping_resolves_names_like_the_statement", "C09.metadata_rows_are_keyed_by_the_named_object", "an unqualified or schema-qualified table in a statement that records a comment / VARCHAR length denotes the object built from the session context")
+alias("C03.describe_and_show_use_the_session_context", "C09.describe_and_show_scope_literals")
